@@ -289,7 +289,9 @@ class Check(CheckBase):
     rule = ("per stream configuration: BFS over {seek(o,whence), read(n), read(-1), tell} from the fresh "
             "object on the real classes, dedup on canonical layer-stack state, to fixed point; plus all "
             "un-deduplicated op sequences to depth d (quick 2 / thorough 3) on fresh objects; every edge "
-            "compared with a bytes-slice reference; non-trivial = state with cursor on a sector boundary "
+            "compared with a bytes-slice reference; raw-sector (MDF) view additionally for EVERY sector count 1..159 (thorough "
+            "..639) x ragged tail {0,100} with the real constants and 1..63 x tail 0..6 with tiny ones, each under a fixed "
+            "probe program (size, whole content, reads across the first / middle / last sector boundaries); non-trivial = state with cursor on a sector boundary "
             "or at the logical end, or a read edge spanning >=1 sector boundary")
     assumptions = ["views are non-empty; whence always passed explicitly",
                    "reversed view: requested size unaligned but clipped size aligned may be accepted or rejected",
@@ -307,12 +309,22 @@ class Check(CheckBase):
             else:
                 d = depth
             out.append({"mode": "seq", "cfg": c, "depth": d})
+        # the raw-sector view for EVERY sector count in a consecutive range (real constants; sizes that are multiples of
+        # other sector formats' sizes, e.g. 51 x 2352 = 49 x 2448, lie inside), each with a fixed probe program
+        hi = 160 if self.quick else 640
+        for lo in range(1, hi, 16):
+            for rag in (0, 100):
+                out.append({"mode": "sizes", "hbf": [16, 2048, 288], "lo": lo, "hi": min(hi, lo + 16), "rag": rag})
+        for rag in range(0, 7):
+            out.append({"mode": "sizes", "hbf": [2, 4, 1], "lo": 1, "hi": 64, "rag": rag})
         return out
 
     # --
     def run_shard(self, shard, rep: Report):
         if "replay_case" in shard:
             return self._replay(shard["replay_case"], rep)
+        if shard["mode"] == "sizes":
+            return self._sizes(shard, rep)
         cfg = shard["cfg"]
         with cfg_ctx(cfg):
             if shard["mode"] == "bfs":
@@ -406,6 +418,31 @@ class Check(CheckBase):
         rep.transitions += n
         rep.traces += n
         rep.notes["sequences_undeduplicated"] += len(keep) ** depth
+
+    def _sizes(self, shard, rep):
+        h, b, f = shard["hbf"]
+        for n in range(shard["lo"], shard["hi"]):
+            cfg = {"kind": "mdf", "hbf": [h, b, f], "n": n, "rag": shard["rag"], "s": b}
+            L = b * n
+            prog = [["seek", 0, 2], ["tell"], ["seek", 0, 0], ["read", -1], ["seek", L - 1, 0], ["read", 2]]
+            for k in sorted({0, 1, n // 2, n - 2, n - 1} & set(range(n))):
+                prog += [["seek", k * b, 0], ["read", 3], ["seek", max(0, k * b - 1), 0], ["read", b + 2]]
+            with cfg_ctx(cfg):
+                stream, model, width = self._fresh(cfg)
+                bad = False
+                for i, op in enumerate(prog):
+                    ok, klass, detail, dead = step(stream, model, op, width)
+                    rep.transitions += 1
+                    if not ok:
+                        rep.case({"cfg": cfg, "ops": prog[:i + 1]}, ok=False, klass=klass, detail=detail, sig=f"mdf-sizes:{klass}")
+                        bad = True
+                        break
+                    if dead:
+                        break
+                if not bad:
+                    rep.case({"cfg": cfg, "ops": prog}, klass="sizes-ok", nontrivial=n > 1)
+            rep.states += 1
+            rep.traces += 1
 
     def _replay(self, case, rep):
         cfg = case["cfg"]
